@@ -67,7 +67,9 @@ Inductive cop :=
   | COp (op : mop)
   | CBurst (pre post : list Z) (start : Z) (count : nat)
   | CSetRate (r : option Z)            (* m.rate_limit = r on the live membrane *)
-  | CSetAdaptive (b : bool).           (* m.enable_adaptive = b on the live membrane *)
+  | CSetAdaptive (b : bool)            (* m.enable_adaptive = b on the live membrane *)
+  | CSetHandler (raises : bool).       (* m.on_threat = a handler that raises (any exception class) / one that
+                                          returns or None, on the live membrane *)
 
 (* a case history as a live history (Model.v: lrun) *)
 Definition expand (o : cop) : list lop :=
@@ -76,6 +78,7 @@ Definition expand (o : cop) : list lop :=
   | CBurst pre post start count => map LOp (burst_ops pre post start count)
   | CSetRate r => [LSetRate r]
   | CSetAdaptive b => [LSetAdaptive b]
+  | CSetHandler _ => []
   end.
 
 Definition rkey (r : mresult) : list Z :=
@@ -95,28 +98,45 @@ Definition burst_obs (st : mstate) (rs : list mresult) : list (list Z) :=
       Z.of_nat (length (m_learned st)); Z.of_nat (length (m_blocked st)) ];
     rle (map rkey rs) ].
 
-Fixpoint mrun_obs (cfg : mconfig) (st : mstate) (ops : list cop) : list (list Z) :=
+(* what the caller of filter() observes: the result, or - when on_threat raised out of
+   filter() - the decision as it stands in the audit trail and the statistics *)
+Definition hobs (st : mstate) (out : fout) : list (list Z) :=
+  match out with
+  | FReturned r => mobs st (Some r)
+  | FHandlerRaised r =>
+      [ [ -10; r_level r; Z.of_nat (length (m_audit st)); m_filtered st; m_nblocked st;
+          Z.of_nat (length (m_learned st)); Z.of_nat (length (m_blocked st)) ];
+        ids (r_matched r) ]
+  end.
+
+(* [h]: does the on_threat handler installed at this point raise when called?  (A burst is
+   observed in counted form: the harness handles the handler's exception per call.) *)
+Fixpoint mrun_obs (h : bool) (cfg : mconfig) (st : mstate) (ops : list cop) : list (list Z) :=
   match ops with
   | [] => []
-  | COp op :: rest => let '(st', o) := mstep cfg st op in mobs st' o ++ mrun_obs cfg st' rest
+  | COp (OFilter c) :: rest =>
+      let '(st', out) := mfilter_h (fun _ => h) cfg st c in hobs st' out ++ mrun_obs h cfg st' rest
+  | COp op :: rest => let '(st', o) := mstep cfg st op in mobs st' o ++ mrun_obs h cfg st' rest
   | CBurst pre post start count :: rest =>
       let '(st', rs) := mrun cfg st (burst_ops pre post start count) in
-      burst_obs st' rs ++ mrun_obs cfg st' rest
+      burst_obs st' rs ++ mrun_obs h cfg st' rest
   | CSetRate r :: rest =>
-      let '(cfg', st', o) := lstep cfg st (LSetRate r) in mobs st' o ++ mrun_obs cfg' st' rest
+      let '(cfg', st', o) := lstep cfg st (LSetRate r) in mobs st' o ++ mrun_obs h cfg' st' rest
   | CSetAdaptive b :: rest =>
-      let '(cfg', st', o) := lstep cfg st (LSetAdaptive b) in mobs st' o ++ mrun_obs cfg' st' rest
+      let '(cfg', st', o) := lstep cfg st (LSetAdaptive b) in mobs st' o ++ mrun_obs h cfg' st' rest
+  | CSetHandler b :: rest => mobs st None ++ mrun_obs b cfg st rest
   end.
 
 (* builtin indices kept, custom signatures, threshold, rate_limit,
-   enable_adaptive, start time (ticks), operations *)
+   enable_adaptive, start time (ticks), does the on_threat handler given to the
+   constructor raise, operations *)
 Record mcase := mkMCase {
   mc_builtin : list nat; mc_custom : list sig; mc_threshold : Z; mc_rate : option Z;
-  mc_adaptive : bool; mc_t0 : Z; mc_ops : list cop }.
+  mc_adaptive : bool; mc_t0 : Z; mc_raises : bool; mc_ops : list cop }.
 
 Definition run_mcase (c : mcase) : list (list Z) :=
   let cfg := mkMC py_cc (fun x => x) (mc_rate c) (mc_adaptive c) in
-  mrun_obs cfg (minit (pick gen_membrane_sigs (mc_builtin c) ++ mc_custom c) (mc_threshold c) (mc_t0 c))
+  mrun_obs (mc_raises c) cfg (minit (pick gen_membrane_sigs (mc_builtin c) ++ mc_custom c) (mc_threshold c) (mc_t0 c))
            (mc_ops c).
 
 (* ---- colony cases: several membranes, transfers ----------------------------- *)
@@ -199,6 +219,7 @@ Fixpoint interp_vs (ds : list vdesc) (answers : list answer) : list validator :=
 Inductive rop :=
   | RI (op : iop) (answers : list answer)      (* answers: one per validator (VOracle, VJson) *)
   | RAddValidator (d : vdesc)
+  | RSetHandler (raises : bool)   (* im.on_inflammation = a handler that raises / one that returns or None *)
   | RSibling.     (* an operation on ANOTHER InnateImmunity instance built from the same pattern/validator objects: no effect here *)
 
 Definition iobs (st : istate) (o : option iout) : list (list Z) :=
@@ -210,23 +231,35 @@ Definition iobs (st : istate) (o : option iout) : list (list Z) :=
   | None => [ [ -1; Z.of_nat (length (i_pats st)); i_level st; i_triggers st ] ]
   end.
 
-Fixpoint irun_obs (ds : list vdesc) (st : istate) (ops : list rop) : list (list Z) :=
+(* check(): the result / a validator's exception, or the exception of on_inflammation *)
+Definition cobs (st : istate) (o : cout) : list (list Z) :=
+  match o with
+  | CPlain o' => iobs st (Some o')
+  | CHandlerRaised lvl => [ [ 3; lvl; i_checks st; i_blocks st; i_triggers st; i_level st ] ]
+  end.
+
+(* [h]: does the on_inflammation handler installed at this point raise when called? *)
+Fixpoint irun_obs (h : bool) (ds : list vdesc) (st : istate) (ops : list rop) : list (list Z) :=
   match ops with
   | [] => []
+  | RI (ICheck c) answers :: rest =>
+      let '(st', o) := icheck_h (fun _ => h) py_cc (interp_vs ds answers) st c in
+      cobs st' o ++ irun_obs h ds st' rest
   | RI op answers :: rest =>
       let '(st', o) := istep py_cc (interp_vs ds answers) st op in
-      iobs st' o ++ irun_obs ds st' rest
+      iobs st' o ++ irun_obs h ds st' rest
   | RAddValidator d :: rest =>
-      [ -2; Z.of_nat (length ds + 1) ] :: irun_obs (ds ++ [d]) st rest
-  | RSibling :: rest => [ -4 ] :: irun_obs ds st rest
+      [ -2; Z.of_nat (length ds + 1) ] :: irun_obs h (ds ++ [d]) st rest
+  | RSetHandler b :: rest => [ -11; b2z b ] :: irun_obs b ds st rest
+  | RSibling :: rest => [ -4 ] :: irun_obs h ds st rest
   end.
 
 Record icase := mkICase {
   ic_builtin : list nat; ic_custom : list sig; ic_validators : list vdesc; ic_threshold : Z;
-  ic_decay_minutes : Z; ic_t0 : Z; ic_ops : list rop }.
+  ic_decay_minutes : Z; ic_t0 : Z; ic_raises : bool; ic_ops : list rop }.
 
 Definition run_icase (c : icase) : list (list Z) :=
-  irun_obs (ic_validators c)
+  irun_obs (ic_raises c) (ic_validators c)
            (iinit (pick gen_innate_sigs (ic_builtin c) ++ ic_custom c) (ic_threshold c)
                   (60 * ic_decay_minutes c) (ic_t0 c))
            (ic_ops c).
